@@ -1338,7 +1338,7 @@ class Node:
             self.auth_application_ids & cer_auth_apps)
         conn.acct_application_ids = list(
             self.acct_application_ids & cer_acct_apps)
-        conn.host_identity = message.origin_host.decode()
+        conn.host_identity = message.origin_host.decode().lower()
 
         self._assign_peer_connection(conn)
         self._flag_connection_as_ready(conn)
